@@ -22,7 +22,7 @@ BOUNDS = (
     "{relative, absolute} spelling x {add A/A'/CNAME/TXT, replace A/CNAME, delete name, delete "
     "type A/CNAME, delete rdata, delete_exact rdata/type/name} + apex SOA add, update_serial "
     "+1 and +2^31-1) from 2 base zones, each run committed and with an exception injected "
-    "after one (quick) or every (thorough) operation index; length 1 on all 6 variants x both "
+    "after one (quick, every other pair) or every (thorough) operation index; length 1 on all 6 variants x both "
     "bases x 8 end modes; length 2 in quick on one variant/base per pair (rotated), in "
     "thorough on all 6 variants with the base alternating; thorough adds every length-3 "
     "sequence over a 26-operation alphabet (variant rotated). Seeded: random sequences of length <= 40 (quick ~1500, thorough "
@@ -531,7 +531,16 @@ def _run_one(R, zones, kind, relativize, base_id, ops, mode, stats, sample=False
         zones.drop(kind, relativize)
         return
     except Exception as e:  # noqa: BLE001
-        R.note(f"harness error on {replay}: {type(e).__name__}: {e}")
+        if M.raised_in_library(e):
+            # building / resetting the zone or reading it back failed inside the library
+            R.violation(
+                "C10.model_commit",
+                f"{kind}/relativize={relativize}: {type(e).__name__}: {str(e)[:100]} while preparing or reading the zone",
+                sig={"site": M.innermost_dns_site(e), "exc": type(e).__name__, "class": "library exception outside the judged operations"},
+                replay=replay,
+            )
+        else:
+            R.note(f"harness error on {replay}: {type(e).__name__}: {e}")
         zones.drop(kind, relativize)
         return
     key = (kind, relativize, base_id, repr(ops), repr(mode))
@@ -591,7 +600,10 @@ def _exhaustive(R, zones, stats):
             else:
                 todo = [(v, ("small", "apex")[(i + vi) % 2]) for vi, v in enumerate(variants)]
             for (kind, rel), base_id in todo:
-                for mode in _modes_for(2, rng, not R.quick):
+                modes = _modes_for(2, rng, not R.quick)
+                if R.quick and i % 2:
+                    modes = modes[:1]  # the injected-exception run on every other pair
+                for mode in modes:
                     _run_one(R, zones, kind, rel, base_id, [a, b], mode, stats)
         if R.deadline() or R.elapsed() > (25 if R.quick else 280):
             R.note(f"C10 exhaustive length-2 stopped early at {i}/{len(core) ** 2}")
@@ -973,8 +985,13 @@ def replay(data):
     if chk == "serial_add":
         bad = _serial_add(data["v"], data["n"])
         return (bad is not None, bad[0] if bad else "agrees with RFC 1982")
-    with M.watchdog(30):
-        fails = execute(data["kind"], data["relativize"], data["base"], data["ops"], data["mode"])
+    try:
+        with M.watchdog(30):
+            fails = execute(data["kind"], data["relativize"], data["base"], data["ops"], data["mode"])
+    except Exception as e:  # noqa: BLE001
+        if M.raised_in_library(e):
+            return True, f"{type(e).__name__}: {e} while preparing or reading the zone"
+        raise
     if fails:
         return True, fails[0][0] + ": " + fails[0][1]
     return False, "sequence matches the model"
